@@ -6,7 +6,7 @@ ID = "C19"
 LEVEL = "proof"
 PROPS_FILE = "C19.v"
 RUN_MODULE = "RunC19"
-TRANSLATOR_UNITS = []
+TRANSLATOR_UNITS = ["res"]
 SHARD = 150
 RULE = ("(1) exhaustive: all connector tables with 3 entries over 2 connectors x 8 targets (platform pin, other/same "
         "connector pin incl. self/mutual cycles, missing) resolved through Pins.map_names; all request sequences of "
